@@ -97,6 +97,23 @@ class Pair:                   # target of rule inference over two variables
         return f"Pair({self.left!r}, {self.right!r}, {self.tag!r})"
 
 
+@symbol
+@dataclass(eq=False)
+class Tag:                    # base class of rule-tree conclusions; TagN tells which node of the tree fired
+    x: Any
+    y: Any = None
+
+    def __repr__(self):
+        return f"{type(self).__name__}({self.x!r}, {self.y!r})"
+
+
+TAGS = []
+for _i in range(8):
+    _cls = symbol(dataclass(eq=False, repr=False)(type(f"Tag{_i}", (Tag,), {"__annotations__": {}})))
+    TAGS.append(_cls)
+    globals()[f"Tag{_i}"] = _cls
+
+
 class Foreign:                # unrelated undecorated class
     def __init__(self, k):
         self.k = k
